@@ -17,6 +17,83 @@ def sector(x, y):
     return idx, refl
 
 
+def _inside_convex(poly, x, y):
+    """strictly inside a convex polygon given in either orientation; returns the smallest distance to an edge line (negative outside)"""
+    n = len(poly)
+    area = sum(poly[i][0] * poly[(i + 1) % n][1] - poly[(i + 1) % n][0] * poly[i][1] for i in range(n))
+    sgn = 1.0 if area > 0 else -1.0
+    best = 1e9
+    for i in range(n):
+        x1, y1 = poly[i]; x2, y2 = poly[(i + 1) % n]
+        ex, ey = x2 - x1, y2 - y1
+        L = math.hypot(ex, ey)
+        if L == 0:
+            continue
+        best = min(best, sgn * (ex * (y - y1) - ey * (x - x1)) / L)
+    return best
+
+
+def corner_cell_probes(run, rng, face, count):
+    from .. import spec
+    # sphere points at the face corners and edge midpoints of every face, through the library's own inverse projection
+    req = []
+    n5 = len(face)
+    pts2 = list(face) + [((face[i][0] + face[(i + 1) % n5][0]) / 2, (face[i][1] + face[(i + 1) % n5][1]) / 2) for i in range(n5)]
+    for o in range(12):
+        for (x, y) in pts2:
+            req.append(f"dodeca_inverse {geo.hx(x * 0.999)} {geo.hx(y * 0.999)} {o}")
+    inv = core.impl_only(run, req)
+    tl = core.impl_only(run, [f"to_lonlat {a.split()[1]} {a.split()[2]}" for a in inv if a.startswith("ok ")])
+    look = []
+    for a in tl:
+        t = a.split()
+        if t[0] != "ok":
+            continue
+        lon, lat = geo.fx(t[1]), geo.fx(t[2])
+        for r in (2, 3, 4, 5):
+            s_ = math.degrees(math.sqrt(4 * math.pi / (60 * 4 ** (r - 1))))
+            for dx, dy in ((0, 0), (0.5, 0.3), (-0.4, 0.5), (0.2, -0.6)):
+                look.append(f"lonlat_to_cell {geo.hx(lon + dx * s_ / max(0.05, math.cos(math.radians(lat))))} {geo.hx(max(-89.9, min(89.9, lat + dy * s_)))} {r}")
+    li = core.impl_only(run, look)
+    cells = sorted({int(a.split()[1]) for a in li if a.startswith("ok ")})
+    rng.shuffle(cells)
+    cells = cells[: max(40, count)]
+    rings = core.impl_only(run, [f"cell_to_boundary {c} 0 3" for c in cells])
+    probes = []
+    freq, fmeta = [], []
+    for c, a in zip(cells, rings):
+        ring = geo.parse_ring(a)
+        d = spec.decode(c)
+        if not ring or d is None:
+            continue
+        o = d[1] // 5
+        fl = core.impl_only(run, [f"from_lonlat {geo.hx(lo)} {geo.hx(la)}" for lo, la in ring])
+        fw = core.impl_only(run, [f"dodeca_forward {x.split()[1]} {x.split()[2]} {o}" for x in fl if x.startswith("ok ")])
+        poly = [(geo.fx(x.split()[1]), geo.fx(x.split()[2])) for x in fw if x.startswith("ok ")]
+        if len(poly) < 9:
+            continue
+        # the ring with 3 segments per edge is a slightly curved polygon: shrink towards its centroid to stay inside the cell
+        cx = sum(p_[0] for p_ in poly) / len(poly); cy = sum(p_[1] for p_ in poly) / len(poly)
+        diam = max(math.hypot(p_[0] - cx, p_[1] - cy) for p_ in poly)
+        for _ in range(40):
+            if len(probes) >= count:
+                break
+            i, j = rng.randrange(len(poly)), rng.randrange(len(poly))
+            t, u = rng.random(), rng.uniform(0.15, 0.85)
+            px = poly[i][0] + t * (poly[j][0] - poly[i][0]); py = poly[i][1] + t * (poly[j][1] - poly[i][1])
+            x0 = cx + u * (px - cx); y0 = cy + u * (py - cy)
+            size = diam * rng.uniform(0.01, 0.04)
+            if _inside_convex(face, x0, y0) > -3 * size:
+                continue            # not in the overhanging part
+            a_ = rng.uniform(0, 2 * math.pi)
+            tri = [(x0 + size * math.cos(a_ + k * 2 * math.pi / 3), y0 + size * math.sin(a_ + k * 2 * math.pi / 3)) for k in range(3)]
+            secs = {sector(x, y) for x, y in tri + [(x0, y0)]}
+            if len(secs) != 1:
+                continue
+            probes.append((tri, o, size, secs.pop()))
+    return probes
+
+
 def run(run):
     rng = run.rng
     run.do_ties()
@@ -47,6 +124,12 @@ def run(run):
             g = rng.uniform(-math.pi, math.pi)
             seg = g / (2 * math.pi / 5); beta = (seg - round(seg)) * (2 * math.pi / 5)
             rho = (D_EDGE + rng.choice([1, -1]) * size * rng.uniform(3, 30) + rng.choice([0, 0, 0.1, 0.18]) * rng.random()) / math.cos(beta)
+            if rng.random() < 0.4:
+                # the corners of the strip beyond the edge: outside the mirror triangle, inside the strip
+                lx_ = D_EDGE * rng.uniform(1.03, 1.28)
+                ly_ = rng.choice([1, -1]) * D_EDGE * math.tan(math.pi / 5) * rng.uniform(0.55, 0.9)
+                g0 = round(seg) * (2 * math.pi / 5)
+                g = g0 + math.atan2(ly_, lx_); rho = math.hypot(lx_, ly_)
         elif m < 0.9:
             rho = rng.choice([1e-4, 1e-3, 1e-2]) + 10 * size; g = rng.uniform(-math.pi, math.pi)      # near the face centre (the chart has a cone point there)
         else:
@@ -66,12 +149,22 @@ def run(run):
             for x, y in tri:
                 g_ = math.atan2(y, x); sg = g_ / (2 * math.pi / 5); b_ = (sg - round(sg)) * (2 * math.pi / 5)
                 lx, ly = math.hypot(x, y) * math.cos(b_), abs(math.hypot(x, y) * math.sin(b_))
-                if not ly < (2 * D_EDGE - lx) * math.tan(math.pi / 5) * 0.97:
+                # measured on the reference tree: the chart beyond an edge is area-preserving on the whole strip between the
+                # perpendiculars through the edge's two vertices (also outside the tapering mirror triangle, where the
+                # inverse extrapolates the edge parameter q beyond [0, 1]) out to 1.3 x distance-to-edge; not beyond a vertex
+                if not (ly < D_EDGE * math.tan(math.pi / 5) * 0.93 and lx < 1.3 * D_EDGE):
                     okm = False
             if not okm:
                 continue
         # keep a margin to the seams so that rounding cannot move a vertex across
         probes.append((tri, rng.randrange(12), size, secs.pop()))
+    # probes inside the part of real cells that hangs over a face edge or corner ("the margin beyond a face edge that cells
+    # reach into"): cells around the 5 x 12 face corners and edge midpoints at r = 2..5, their rings pulled back into the
+    # plane of their own face, probe triangles inside the overhanging part
+    corner = corner_cell_probes(run, rng, face, 60 if quick else 1500)
+    run.extra["probes_in_overhanging_parts_of_cells"] = len(corner)
+    probes += corner
+
     def outline(tri, M):
         out = []
         for e in range(3):
@@ -138,7 +231,7 @@ def run(run):
                           reqs[P * k: P * k + 3], str(impl[P * k: P * k + 3]))
     run.rule = ("probe triangles (random orientation, size 1e-6..1e-3, not straddling a seam) in every sector of every face: 8% at 5e-8..3e-4 from the face centre with size 1/64..1/6 of that distance (small-angle branch of the inverse), 27% anywhere out to 1.3 x distance-to-edge, 25% on either side of the ten internal seams, "
                 "20% on either side of the face edge incl. the reflected margin, 10% at the face centre, 10% at the pentagon vertices; spherical area of the unprojected outline (12 points per edge, 60 when the first measurement exceeds 2e-5; tangent-plane shoelace) vs planar area x 4*pi/(12*F); "
-                "non-trivial = distinct probes measured")
+                "plus probe triangles inside the overhanging parts (beyond a face edge or corner) of real cells of r = 2..5 around all face corners and edge midpoints; non-trivial = distinct probes measured")
     run.samples = [{"request": reqs[3 * M * k], "impl": impl[3 * M * k]} for k in rng.sample(range(len(probes)), 4)]
     run.extra["worst_relative_distortion"] = worst
     run.extra["probes_remeasured_finely"] = len(again)
